@@ -145,7 +145,18 @@ type ExecResult struct {
 	Desc    []string // per-decision description (only when Describe is on)
 	Rdv     [][2]int // rendezvous in order: {sender thread, receiver thread}
 	Sends   []int    // sender thread of every granted channel send, in order (buffered or rendezvous)
+	// Diverged: (lenient replays only) the recorded choices stopped fitting the execution at some decision - the code
+	// took another path than in the recorded run although it was given the same schedule - and the default choice
+	// was taken from there on
+	Diverged bool
 }
+
+// strictReplay: a recorded choice that does not fit the execution is a tool failure (the replay of a saved
+// counterexample file, the runtime's own tests). The explorer runs without it: there an execution that leaves its
+// prefix is marked Diverged, judged by the oracle like any other, not expanded, and the scenario is reported as
+// NOT exhaustive - code whose path depends on something the scheduler does not own (map iteration order, say) cannot
+// be enumerated, but a failure it shows is a failure all the same.
+var strictReplay bool
 
 //go:norace
 func (x *ExecResult) Choices() []int {
@@ -906,7 +917,11 @@ func (s *sched) decide() {
 	c := first
 	if i < len(s.prefix) {
 		c = s.prefix[i]
-		if c < 0 || c >= len(trs) || awake&(1<<uint(c)) == 0 {
+		if !strictReplay && (c < 0 || c >= len(trs) || awake&(1<<uint(c)) == 0) {
+			s.res.Diverged = true
+			s.prefix = s.prefix[:i]
+			c = first
+		} else if c < 0 || c >= len(trs) || awake&(1<<uint(c)) == 0 {
 			toolFail(fmt.Sprintf("replay divergence at decision %d: choice %d of %d enabled (awake mask %b)", i, c, len(trs), awake))
 		}
 	}
